@@ -16,11 +16,12 @@ RULE = ('cases = (statement text from the typed SQL model over schema t1..t4, ta
 ASSUMPTIONS = ['sqlite3 (SQLite 3.40) is the reference engine; mysql/postgresql output is judged only when SQLite can '
                'execute it', 'the statement is parsed with the mindsdb dialect; parsing itself is not judged here',
                'MSSQL / Oracle output cannot be executed here']
-FLOORS = {'quick': {'__nontrivial__': 1500, 'target:sqlite': 1500, 'kind:select': 2500, 'kind:dml': 500,
-                    'tag:join:RIGHT JOIN': 60, 'tag:join:FULL OUTER JOIN': 60, 'tag:join:LEFT OUTER JOIN': 60,
-                    'tag:order': 300, 'tag:limit': 100, 'tag:group': 150, 'tag:window': 60, 'tag:distinct': 150,
-                    'tag:sub:from': 150, 'tag:cte': 60},
-          'thorough': {'__nontrivial__': 15000, 'kind:select': 25000, 'kind:dml': 5000}}
+FLOORS = {'quick': {'__nontrivial__': 400, 'target:sqlite': 800, 'kind:select': 1200, 'kind:dml': 300,
+                    'tag:join:FULL OUTER JOIN': 150, 'tag:join:LEFT OUTER JOIN': 150, 'tag:join:LEFT JOIN': 150,
+                    'tag:order': 600, 'tag:limit': 300, 'tag:group': 400, 'tag:window': 200, 'tag:distinct': 400,
+                    'tag:sub:from': 500, 'tag:cte': 150, 'tag:setop:UNION': 50, 'tag:dml:update': 60,
+                    'tag:dml:insert': 80, 'tag:dml:delete': 30, 'tag:dml:create': 30},
+          'thorough': {'__nontrivial__': 5000, 'kind:select': 15000, 'kind:dml': 3500}}
 N = {'quick': 300, 'thorough': 4000}
 TARGETS = ['sqlite', 'sqlite', 'mysql', 'postgresql']
 CFG = model.Cfg(places={}, always_alias=True)
@@ -64,11 +65,11 @@ def judge(case, col):
             tree = parse_sql(stmt, 'mindsdb')
             rendered.append(_render(tree, target))
     except (NotImplementedError, SQLAlchemyError) as e:
-        col.excluded('renderer: unsupported (' + type(e).__name__ + ')')
+        col.excluded('renderer: unsupported (' + type(e).__name__ + ': ' + str(e)[:60].replace('\n', ' ') + ')')
         col.case((target, str(sql)), False, classes + ['unsupported'])
         return []
     except Exception as e:
-        col.excluded('parse/render internal error (C02/C17): ' + site_of(e))
+        col.excluded('parse/render internal error (C02/C17): ' + site_of(e) + ' ' + str(e)[-80:].replace('\n', ' ') + ' <- ' + str(stmts)[:200])
         return []
     try:
         if kind == 'select':
@@ -168,7 +169,7 @@ def dml(draw):
         defs = []
         for i in range(draw(st.integers(1, 3))):
             ty = g.pick(['int', 'integer', 'varchar(10)', 'text', 'float'])
-            extra = g.pick(['', '', ' NOT NULL', ' NULL', ' PRIMARY KEY' if i == 0 else '', ' DEFAULT 5' if 'int' in ty else ''])
+            extra = g.pick(['', '', ' NOT NULL', ' NULL', ' PRIMARY KEY' if i == 0 else ''])
             defs.append(f'k{i} {ty}{extra}')
         sql = [f'CREATE TABLE {g.pick(["", "IF NOT EXISTS "])}{name} ({", ".join(defs)})',
                f'INSERT INTO {name} (k0) VALUES (1)']
